@@ -577,6 +577,10 @@ def family_str(tier, start=0):
         ("cat-tostring", "symbol", Fn("cat", [S, Fn("to_string", [Fn("+", [Fn("strlen", [S]), Num(1)])])]), False),
         ("min", "symbol", Fn("min", [S, S2]), True),
         ("max", "symbol", Fn("max", [S, S2]), True),
+        # constants with carriage returns / line feeds (observed through their length: the default output format is line based)
+        ("strlen-crlf", "number", Fn("strlen", [Fn("cat", [S, Sym("\r\n")])]), False),
+        ("strlen-cr-const", "number", Fn("strlen", [Sym("a\rb\r\nc\n")]), False),
+        ("strlen-tab-quote", "number", Fn("strlen", [Fn("cat", [Sym("\t\"\\"), S])]), False),
     ]
     for name, ty, ex, two in exprs:
         P = Program()
@@ -591,6 +595,7 @@ def family_str(tier, start=0):
         ("contains-const", [Atom("w", [S]), Atom("w", [S2]), Contains(Sym("a"), S)]),
         ("match", [Atom("w", [S]), Atom("w", [S2]), Match(Sym("a.*"), S)]),
         ("match-digits", [Atom("w", [S]), Atom("w", [S2]), Match(Sym("[0-9]+"), S)]),
+        ("contains-cr", [Atom("w", [S]), Atom("w", [S2]), Contains(Sym("\r"), Fn("cat", [S, Sym("\r\n"), S2]))]),
         ("lt", [Atom("w", [S]), Atom("w", [S2]), Cmp("<", S, S2)]),
         ("le", [Atom("w", [S]), Atom("w", [S2]), Cmp("<=", S, S2)]),
         ("neq", [Atom("w", [S]), Atom("w", [S2]), Cmp("!=", S, S2)]),
